@@ -324,6 +324,17 @@ def h5(prog, rep):
         detail += "; up-guard compar(elem, parent) < 0: %s, rc > 0: %s" % (lt, nz)
     rep.check(ok, "H4-sift", "ptrheap_delete re-establishes order in both directions (up when smaller than the parent, else down)", de.loc, detail,
               function=de.name, construct="delete-bidirectional")
+    # the upward move is the element's own: it is swapped with its parent, and the sift continues from where it went
+    par = parent_of(rc)
+    for w in sw:
+        ok2 = {norm(w.arg(1)), norm(w.arg(2))} == {rc, par}
+        rep.check(ok2, "H4-index", "ptrheap_delete swaps the moved element with its parent", w.where,
+                  "swap(%s, %s): expected positions rc and (rc - 1) / 2" % (show(norm(w.arg(1))), show(norm(w.arg(2)))), function=de.name, construct="delete-swap")
+    for c in up:
+        follows = [w for w in sw if de.dominates(w, c)]
+        want = par if follows else rc
+        rep.check(norm(c.arg(1)) == want, "H4-index", "ptrheap_delete continues the sift-up from the position the element now has", c.where,
+                  "heapifyup from %s; the element is at %s" % (show(norm(c.arg(1))), show(want)), function=de.name, construct="delete-continue")
 
 
 def h2_h3(prog, rep):
